@@ -136,12 +136,16 @@ def main(pid, tier, seed, replay=None):
     aglib.build_model()
 
     # 3..5 property specific exploration
-    ctx = {'pid': pid, 'tier': tier, 'seed': seed, 'rng': rng, 'replay': replay}
+    from props.common import replay_known
+    kl, kclasses = replay_known(pid)
+    known_lines.extend(kl)
+    ctx = {'pid': pid, 'tier': tier, 'seed': seed, 'rng': rng, 'replay': replay, 'known_classes': kclasses}
     res = mod.explore(ctx)
     coverage.update(res['coverage'])
     failures = res['failures']          # list of dict(kind='spec'|'corr', what, case/replay payload, known=None|id)
     for line in res.get('known_lines', []):
-        known_lines.append(line)
+        if line not in known_lines:
+            known_lines.append(line)
 
     spec_fail = [f for f in failures if f['kind'] == 'spec' and not f.get('known')]
     corr_fail = [f for f in failures if f['kind'] == 'corr' and not f.get('known')]
